@@ -95,6 +95,11 @@ type SendRec struct {
 // event-loop goroutine, so `sends` is the exact event-loop order of publications.
 type Tap struct {
 	base  pubsub.Distributor[int]
+	back  backing
+	// closeAfter != 0: the container is closed, inside the event loop, right
+	// after this message has been accepted (the owner shuts the broker's queue
+	// down after the last message)
+	closeAfter atomic.Int64
 	mu    sync.Mutex
 	sends []SendRec
 	recvs atomic.Int64
@@ -118,6 +123,9 @@ func errKind(err error) string {
 
 func (t *Tap) tapSend(ctx context.Context, v int) error {
 	err := t.base.Send(ctx, v)
+	if ca := t.closeAfter.Load(); ca != 0 && int64(v) == ca && t.back.close != nil {
+		_ = t.back.close()
+	}
 	t.mu.Lock()
 	t.sends = append(t.sends, SendRec{M: v, Res: errKind(err)})
 	t.mu.Unlock()
@@ -144,32 +152,42 @@ func (t *Tap) SendsFrom(i int) []SendRec {
 	return append([]SendRec(nil), t.sends[i:]...)
 }
 
-func baseDistributor(c Cfg) pubsub.Distributor[int] {
+// backing is the container behind a distributor, as its owner sees it.
+type backing struct {
+	dist  pubsub.Distributor[int]
+	close func() error      // Queue.Close / Deque.Close (nil for a plain channel)
+	push  func(int) error   // the owner's own non-blocking push (nil for a plain channel)
+}
+
+func makeBacking(c Cfg) backing {
 	switch c.Backend {
 	case "chan":
-		return pubsub.DistributorChannel(make(chan int))
+		return backing{dist: pubsub.DistributorChannel(make(chan int))}
 	case "queue":
-		return pubsub.NewUnlimitedQueue[int]().Distributor()
+		q := pubsub.NewUnlimitedQueue[int]()
+		return backing{dist: q.Distributor(), close: q.Close, push: q.Add}
 	case "deque":
-		return pubsub.NewUnlimitedDeque[int]().Distributor()
+		dq := pubsub.NewUnlimitedDeque[int]()
+		return backing{dist: dq.Distributor(), close: dq.Close, push: dq.PushBack}
 	case "dequeblock":
 		dq, err := pubsub.NewDeque[int](pubsub.DequeOptions{Capacity: c.Cap})
 		if err != nil {
 			panic(err)
 		}
-		return dq.Distributor()
+		return backing{dist: dq.Distributor(), close: dq.Close, push: dq.PushBack}
 	case "lifo":
 		dq, err := pubsub.NewDeque[int](pubsub.DequeOptions{Capacity: c.Cap})
 		if err != nil {
 			panic(err)
 		}
-		return dq.DistributorNonBlocking() // exactly what NewLIFOBroker uses
+		// exactly what NewLIFOBroker uses
+		return backing{dist: dq.DistributorNonBlocking(), close: dq.Close, push: dq.ForcePushBack}
 	case "queuelim":
 		q, err := pubsub.NewQueue[int](pubsub.QueueOptions{HardLimit: c.Cap, SoftQuota: c.Cap})
 		if err != nil {
 			panic(err)
 		}
-		return q.Distributor()
+		return backing{dist: q.Distributor(), close: q.Close, push: q.Add}
 	}
 	panic("unknown backend " + c.Backend)
 }
@@ -290,6 +308,7 @@ type Sub struct {
 	Subscribed bool
 	paused    bool
 	Leftover  []int // still in the subscription channel's buffer after everything stopped
+	Foreign   bool  // a channel the broker never handed out (only ever passed to Unsubscribe)
 }
 
 func (s *Sub) run(startPaused bool) {
@@ -380,7 +399,8 @@ type Runner struct {
 func NewRunner(c Cfg) *Runner {
 	r := &Runner{Cfg: c}
 	r.ctx, r.cancel = context.WithCancel(context.Background())
-	r.Tap = &Tap{base: baseDistributor(c)}
+	bk := makeBacking(c)
+	r.Tap = &Tap{base: bk.dist, back: bk}
 	r.B = pubsub.MakeDistributorBroker(r.ctx, r.Tap.Dist(), pubsub.BrokerOptions{BufferSize: c.Buf, ParallelDispatch: c.Par, WorkerPoolSize: c.W})
 	return r
 }
@@ -576,6 +596,32 @@ func (r *Runner) Unsubscribe(s *Sub) {
 	r.awaitSubCount()
 	r.flushSends()
 	r.Ctl = append(r.Ctl, CtlEv{Op: "unsub", I: s.Idx})
+}
+
+// UnsubscribeAgain issues an Unsubscribe for a channel that is not subscribed
+// (already unsubscribed, or never handed out by Subscribe): a no-op for the
+// subscriber set. The Stats round trip (BufferSize 0) runs after the loop has
+// handled the request.
+func (r *Runner) UnsubscribeAgain(s *Sub) {
+	ctx, cancel := bctx()
+	defer cancel()
+	r.flushSends()
+	r.B.Unsubscribe(ctx, s.ch)
+	if ctx.Err() != nil {
+		r.fail("C09:broker:stall:"+r.Cfg.Backend, "redundant Unsubscribe did not return within %v", Bound)
+		return
+	}
+	r.awaitSubCount()
+	r.flushSends()
+	r.Ctl = append(r.Ctl, CtlEv{Op: "unsub", I: s.Idx})
+}
+
+// Foreign makes a subscriber record for a channel the broker never handed out.
+func (r *Runner) Foreign() *Sub {
+	s := &Sub{Idx: len(r.Subs), ch: make(chan int, r.Cfg.Buf), ctl: make(chan ctlMsg), quit: make(chan struct{}), done: make(chan struct{}), paused: true, Foreign: true}
+	close(s.done)
+	r.Subs = append(r.Subs, s)
+	return s
 }
 
 func (r *Runner) Pause(s *Sub)  { s.control("pause"); s.paused = true }
@@ -825,7 +871,7 @@ func (r *Runner) CheckC08(complete bool) {
 				lastPer[p.Pubr] = p.Call
 			}
 		}
-		if complete && r.Cfg.Lossless() && s.ch != nil {
+		if complete && r.Cfg.Lossless() && s.ch != nil && !s.Foreign {
 			for _, p := range r.Pubs {
 				if !p.Returned || p.Call <= s.SubRet {
 					continue
